@@ -736,7 +736,7 @@ func c04Streams(seed int64, tier string, boost int) []C4Case {
 	}
 
 	// ---- random streams
-	for i := 0; i < 350*scale; i++ {
+	for i := 0; i < 250*scale; i++ {
 		gen, cm, cf := s.cfg()
 		n := r.Pick(48)
 		if r.Chance(0.1) {
@@ -744,7 +744,7 @@ func c04Streams(seed int64, tier string, boost int) []C4Case {
 		}
 		s.add(c04Plain(gen, cm, cf, "random-bytes", s.randomBytes(n)))
 	}
-	for i := 0; i < 280*scale; i++ {
+	for i := 0; i < 200*scale; i++ {
 		gen, cm, cf := s.cfg()
 		n := 1 + r.Pick(60)
 		if r.Chance(0.08) {
@@ -752,7 +752,7 @@ func c04Streams(seed int64, tier string, boost int) []C4Case {
 		}
 		s.add(c04Plain(gen, cm, cf, "token-soup", s.soupText(n)))
 	}
-	for i := 0; i < 500*scale; i++ {
+	for i := 0; i < 400*scale; i++ {
 		gen, cm, cf := s.cfg()
 		ps := c04Programs(gen)
 		p := ps[r.Pick(len(ps))]
